@@ -126,6 +126,16 @@ class ExprMixin(object):
             setattr(self, name, value)
 
 
+def operandtostring(operand, tostring):
+    """Renders an operand of an expression, parenthesised if Python would otherwise bind it differently (unary sub-expressions, negative constants)."""
+    text = tostring(operand)
+    if isinstance(operand, UniExpr):
+        return "(%s)" % (text,)
+    if isinstance(operand, (int, float)) and not isinstance(operand, bool) and text.startswith("-"):
+        return "(%s)" % (text,)
+    return text
+
+
 class UniExpr(ExprMixin):
 
     def __init__(self, op, operand):
@@ -133,10 +143,10 @@ class UniExpr(ExprMixin):
         self.operand = operand
 
     def __repr__(self):
-        return "%s %r" % (opnames[self.op], self.operand)
+        return "%s %s" % (opnames[self.op], operandtostring(self.operand, repr))
 
     def __str__(self):
-        return "%s %s" % (opnames[self.op], self.operand)
+        return "%s %s" % (opnames[self.op], operandtostring(self.operand, str))
 
     def __call__(self, obj, *args):
         operand = self.operand(obj) if callable(self.operand) else self.operand
@@ -151,10 +161,10 @@ class BinExpr(ExprMixin):
         self.rhs = rhs
 
     def __repr__(self):
-        return "(%r %s %r)" % (self.lhs, opnames[self.op], self.rhs)
+        return "(%s %s %s)" % (operandtostring(self.lhs, repr), opnames[self.op], operandtostring(self.rhs, repr))
 
     def __str__(self):
-        return "(%s %s %s)" % (self.lhs, opnames[self.op], self.rhs)
+        return "(%s %s %s)" % (operandtostring(self.lhs, str), opnames[self.op], operandtostring(self.rhs, str))
 
     def __call__(self, obj, *args):
         lhs = self.lhs(obj) if callable(self.lhs) else self.lhs
